@@ -514,6 +514,12 @@ QUEUES = ["/k/var/queue", "/k/var/queue2", "/k/var/queue3"]
 HISTORY_RELS = {"hist.log"}
 
 
+def hrels(meta):
+    """history paths of the case, relative to the common parent (the generator may configure more)"""
+    return set(meta.get("history_rels", HISTORY_RELS)) if isinstance(meta, dict) else HISTORY_RELS
+
+
+
 def content(ent):
     """bytes of a dumped file (None when too long to be included)"""
     if not ent or ent[0] != "file" or len(ent) < 6 or ent[5] == "-":
@@ -693,8 +699,8 @@ def mon_faithful(steps, meta):
                         return "empty directory %s was left in the store" % p
                 elif e[0] == "file":
                     rel = p[len("/k/store/"):].rsplit("/", 1)[0]
-                    src = cur.get("/w/" + rel)
-                    if rel in HISTORY_RELS:
+                    src = cur.get(meta.get("wprefix", "/w/") + rel)
+                    if rel in hrels(meta):
                         continue
                     if src is None or src[0] != "file":
                         return "version %s exists but its source is not a regular file" % p
@@ -716,7 +722,7 @@ def mon_history(steps, meta):
         if st.dump is None:
             continue
         d = st.dump
-        for rel in HISTORY_RELS:
+        for rel in hrels(meta):
             src = content(d.get("/w/" + rel))
             if src is None:
                 continue
@@ -817,7 +823,7 @@ def mon_bursts(steps, meta):
     return None
 
 
-PROJECTS = {"proj": "/w/proj", "p1": "/w/pp/p1", "p2": "/w/pp/p2"}
+PROJECTS = {"proj": "/w/proj", "p1": "/w/pp/p1", "p2": "/w/pp/p2", "proj2": "/w/hd/proj2"}
 
 
 def mon_projects(steps, meta):
@@ -863,7 +869,7 @@ def mon_projects(steps, meta):
                 for m, e in members.items():
                     if (root + "/" + m) not in cur:
                         return "snapshot %s contains %s which no longer exists in the project" % (sdir, m)
-                    vdir = "/k/store/%s/%s/" % (root[len("/w/"):], m)
+                    vdir = "/k/store/%s/" % (root + "/" + m)[len(meta.get("wprefix", "/w/")):]
                     vers = sorted((p for p in cur if p.startswith(vdir)), key=lambda p: version_key(p.rsplit("/", 1)[1]))
                     if not vers:
                         return "snapshot member %s has no stored version" % m
@@ -936,7 +942,7 @@ def mon_recovery(steps, meta):
         if not (src and src[0] == "file" and src[4] == "r"):
             continue
         vers = [p for p in last if p.startswith("/k/store/%s/" % rel) and last[p][0] == "file"]
-        if rel in HISTORY_RELS:
+        if rel in hrels(meta):
             parts = [content(last[p]) for p in vers]
             sc = content(src)
             if sc is not None and all(x is not None for x in parts):
@@ -993,7 +999,7 @@ def mon_no_partial(steps, meta):
     for p, e in last.items():
         if p.startswith("/k/store/") and e[0] == "file" and p not in pre:
             rel = p[len("/k/store/"):].rsplit("/", 1)[0]
-            if rel in HISTORY_RELS:
+            if rel in hrels(meta):
                 continue
             src = last.get("/w/" + rel)
             if src and src[0] == "file" and file_sig(src) != file_sig(e):
@@ -1152,7 +1158,7 @@ def mon_position_kept(steps, meta):
     if len(dumps) < 2:
         return None
     pre, after = dumps[0], dumps[1]
-    for rel in HISTORY_RELS:
+    for rel in hrels(meta):
         newv = [p for p in after if p.startswith("/k/store/%s/" % rel) and after[p][0] == "file" and p not in pre]
         a, b = pre.get("/k/var/offsets/" + rel), after.get("/k/var/offsets/" + rel)
         if not newv and (a or ())[2:] != (b or ())[2:] and (a is None or a[0] == "file"):
@@ -1191,7 +1197,7 @@ def mon_position_not_ahead(steps, meta):
     for st in steps:
         if st.dump is None:
             continue
-        for rel in HISTORY_RELS:
+        for rel in hrels(meta):
             o = st.dump.get("/k/var/offsets/" + rel)
             if o is None or o[0] != "file":
                 continue
